@@ -267,6 +267,7 @@ func (c Case) run(timeout time.Duration) string {
 		pool = append(pool, rosed.Edit(p))
 	}
 	toks := []string{c.ID}
+	abnormal := false // a step panicked or hit the watchdog: the order-independence pass is skipped
 	for _, s := range c.Steps {
 		if s.Recv >= len(pool) {
 			toks = append(toks, "P")
@@ -276,10 +277,13 @@ func (c Case) run(timeout time.Duration) string {
 		before := obsTok(recv)
 		out := runStep(s, recv, timeout)
 		tok := out.tok
-		if !out.panic {
-			// determinism: the same call on the same receiver gives the same result
+		if out.panic {
+			abnormal = true
+		} else {
+			// determinism: the same call on the same receiver gives the same result (a watchdog
+			// timeout of the repetition on a loaded machine is not a different result)
 			again := runStep(s, recv, timeout)
-			if again.tok != tok {
+			if again.tok != tok && again.tok != "T" {
 				tok = "ND" + tok
 			}
 		}
@@ -301,7 +305,7 @@ func (c Case) run(timeout time.Duration) string {
 	// observed before it. The history is executed again without any intermediate observation and
 	// the pool is then observed last entry first; every entry must report what it reports when the
 	// pool of the run above is observed first entry first.
-	if len(toks) == len(c.Steps)+1 && len(c.Steps) > 0 && !c.orderIndependent(pool, timeout) {
+	if !abnormal && len(toks) == len(c.Steps)+1 && len(c.Steps) > 0 && !c.orderIndependent(pool, timeout) {
 		toks[len(toks)-1] = "ND" + toks[len(toks)-1]
 	}
 	return strings.Join(toks, " ")
